@@ -5,6 +5,7 @@
 (*   tick(S)  = begin; apply every candidate of S; commit_with_receipt     *)
 (*   abort(S) = begin; apply every candidate of S; abort                   *)
 (*   jump(k)  = jump_to_tick(k) followed by further commits (rewind cfgs)  *)
+(*   fail(S)  = begin; apply S; commit returns Err; abort   (failed cfgs)  *)
 (* with S a set of at most MaxCands matching candidates (the empty tick    *)
 (* included).  Every history with MaxTicks committed ticks is exported     *)
 (* with the predicted state, patch, slots, canonical content after every   *)
@@ -18,6 +19,7 @@ CONSTANTS MaxTicks,      \* committed ticks per history
           MaxCandsA,     \* candidates per tick in a history that contains an aborted transaction
           MaxAborts,     \* aborted transactions per history
           MaxJumps,      \* jump_to_tick calls FOLLOWED by commits per history (0 except in the rewind cfgs)
+          MaxFails,      \* transactions whose commit FAILS (merged ops do not apply) per history (0 except in the failed cfgs)
           PreNames,      \* pre-states (U0) explored
           CandU,         \* candidate universe: set of <<rule, warp, scope>>
           AbortSets,     \* candidate sets an aborted transaction may have enqueued
@@ -25,7 +27,7 @@ CONSTANTS MaxTicks,      \* committed ticks per history
 
 VARIABLES eng, preName,
           script,        \* the macro steps so far (the behaviour being exported)
-          lastKind       \* kind of the last step ("init" | "tick" | "abort" | "jump")
+          lastKind       \* kind of the last step ("init" | "tick" | "abort" | "jump" | "fail")
 vars == <<eng, preName, script, lastKind>>
 
 \* ---- rule table (interpreted identically by harness/src/programs.rs) -----
@@ -62,6 +64,8 @@ MC_CandU_life == {<<13, "w0", "n0">>, <<9, "w0", "n2">>, <<7, "w0", "n0">>, <<2,
 \* edge life-cycle on hub: delete / RE-PARENT e0 (keeps its attachment: the F1 path), set its attachment, unhook n1,
 \* delete n1 once its out-edge was deleted or re-parented away and its in-edge deleted
 MC_CandU_edge == {<<5, "w0", "n1">>, <<4, "w0", "n2">>, <<6, "w0", "n0">>, <<11, "w0", "n0">>, <<9, "w0", "n1">>}
+\* the quick tier's edge universe (no SetEdgeAtom)
+MC_CandU_edgeq == MC_CandU_edge \ {<<6, "w0", "n0">>}
 \* larger mixes for the thorough tier
 MC_CandU_mix  == {<<13, "w0", "n0">>, <<9, "w0", "n2">>, <<7, "w0", "n0">>, <<3, "w0", "n2">>, <<8, "w0", "n0">>,
                   <<5, "w0", "n1">>, <<4, "w0", "n2">>}
@@ -71,6 +75,10 @@ MC_CandU_chain == {<<5, "w0", "n2">>, <<11, "w0", "n0">>, <<9, "w0", "n1">>, <<9
                    <<7, "w0", "n0">>}
 \* descended instance (hubportal pre-state): ticks inside w1 read the portal slot of the descent chain
 MC_CandU_portal == {<<1, "w1", "n0">>, <<4, "w1", "n1">>, <<5, "w1", "n0">>, <<9, "w1", "n1">>, <<2, "w0", "n0">>}
+
+\* failing commits: DelNodeIso n2 while e2 still enters n2 emits a DeleteNode that cannot apply; with the DeleteEdge of
+\* another rewrite sorted before it the failure happens AFTER an op was applied
+MC_CandU_fail == {<<5, "w0", "n1">>, <<9, "w0", "n2">>, <<13, "w0", "n0">>, <<2, "w0", "n2">>}
 
 MC_AbortSets_one == {{<<7, "w0", "n0">>, <<2, "w0", "n1">>}}
 MC_AbortSets_two == {{<<7, "w0", "n0">>, <<2, "w0", "n1">>}, {<<9, "w0", "n2">>, <<5, "w0", "n1">>}}
@@ -118,10 +126,11 @@ TickStep(S) ==
   /\ NTicks < MaxTicks
   /\ Cardinality(S) <= IF NOf("abort") > 0 THEN MaxCandsA ELSE MaxCands
   /\ \A c \in S : Matches(c, eng.state)
-  /\ LET tx == NewTx(eng)
-         e2 == DoApplyAll(DoBegin(eng), tx, S)
-     IN /\ CommitOk(e2, tx)
-        /\ eng' = DoCommit(e2, tx)
+  /\ LET tx  == NewTx(eng)
+         e2  == DoApplyAll(DoBegin(eng), tx, S)
+         rec == TickRecord(e2, tx)                \* the oracle is evaluated once per candidate set
+     IN /\ rec.ok                                 \* = CommitOk(e2, tx)
+        /\ eng' = CommitWith(e2, tx, rec)         \* = DoCommit(e2, tx)
   /\ script' = Append(script, Step("tick", S, 0))
   /\ lastKind' = "tick" /\ UNCHANGED preName
 
@@ -141,8 +150,22 @@ JumpStep(k) ==
   /\ script' = Append(script, Step("jump", {}, k))
   /\ lastKind' = "jump" /\ UNCHANGED preName
 
+\* a transaction whose accepted rewrites emit ops that do not apply together: commit_with_receipt returns Err and
+\* the caller aborts the transaction
+FailStep(S) ==
+  /\ NOf("fail") < MaxFails /\ NTicks < MaxTicks
+  /\ \A c \in S : Matches(c, eng.state)
+  /\ LET tx == NewTx(eng)
+         e2 == DoApplyAll(DoBegin(eng), tx, S)
+     IN /\ ~CommitOk(e2, tx)
+        /\ eng' = DoAbort(DoFailedCommit(e2, tx), tx)
+  /\ script' = Append(script, Step("fail", S, 0))
+  /\ lastKind' = "fail" /\ UNCHANGED preName
+
 TickSets == {S \in SUBSET CandU : Cardinality(S) <= MaxCands}
-Next == (\E S \in TickSets : TickStep(S)) \/ (\E S \in AbortSets : AbortStep(S)) \/ (\E k \in 1..MaxTicks : JumpStep(k))
+Next == \/ \E S \in TickSets : TickStep(S) \/ FailStep(S)
+        \/ \E S \in AbortSets : AbortStep(S)
+        \/ \E k \in 1..MaxTicks : JumpStep(k)
 Spec == Init /\ [][Next]_vars
 
 \* ---- the script as a function (used for the abort law) ------------------------
@@ -152,6 +175,7 @@ RunScript(e, sc, i) ==
   ELSE LET st == sc[i]  tx == NewTx(e)
        IN CASE st.kind = "tick"  -> RunScript(DoCommit(DoApplyAll(DoBegin(e), tx, st.cands), tx), sc, i + 1)
             [] st.kind = "abort" -> RunScript(DoAbort(DoApplyAll(DoBegin(e), tx, st.cands), tx), sc, i + 1)
+            [] st.kind = "fail"  -> RunScript(DoAbort(DoFailedCommit(DoApplyAll(DoBegin(e), tx, st.cands), tx), tx), sc, i + 1)
             [] st.kind = "jump"  -> RunScript(DoJump(e, st.k), sc, i + 1)
 \* everything but transaction numbers
 StripTx(e) == [state |-> e.state, last |-> e.last, u0 |-> e.u0,
@@ -163,14 +187,16 @@ Inv_Linear      == LinearLaw(eng)
 Inv_Jump        == JumpLaw(eng)
 Inv_Chain       == ChainLaw(eng)
 Inv_WellFormed  == WellFormed(eng.state) /\ \A k \in 1..NTicks : WellFormed(eng.ledger[k].post)
-Inv_TxBook      == eng.live = {} /\ DOMAIN eng.pend = {} /\ eng.txc = NOf("tick") + NOf("abort")
+Inv_TxBook      == eng.live = {} /\ DOMAIN eng.pend = {} /\ eng.txc = NOf("tick") + NOf("abort") + NOf("fail")
 \* the step machine is the functional fold of its script
-Inv_ScriptFold  == eng = RunScript(NewEngine(PreState(preName)), script, 1)
+\* (evaluated on complete histories; the ledger of a complete history contains every prefix)
+Inv_ScriptFold  == (NTicks = MaxTicks /\ NOf("abort") + NOf("fail") = 0) => eng = RunScript(NewEngine(PreState(preName)), script, 1)
 \* an aborted transaction leaves no trace: (a) the step itself changes nothing but the tx counter ...
-Prop_AbortNoTrace == [][lastKind' = "abort" => (SameButTx(eng, eng') /\ eng'.txc = eng.txc + 1)]_vars
+Prop_AbortNoTrace == [][lastKind' \in {"abort", "fail"} => (SameButTx(eng, eng') /\ eng'.txc = eng.txc + 1)]_vars
 \* ... (b) the whole history is, up to tx numbers, the history of the script without its aborted transactions
 Inv_AbortInvisible ==
-  StripTx(eng) = StripTx(RunScript(NewEngine(PreState(preName)), SelectSeq(script, LAMBDA st : st.kind # "abort"), 1))
+  (NTicks = MaxTicks /\ NOf("abort") + NOf("fail") > 0) =>
+  StripTx(eng) = StripTx(RunScript(NewEngine(PreState(preName)), SelectSeq(script, LAMBDA st : st.kind \notin {"abort", "fail"}), 1))
 Inv_SliceDefs    == SliceDefsAgree(eng)
 Inv_SliceWeak    == SliceWeak(eng)
 Inv_SliceTheorem == SliceTheorem(eng)
@@ -186,9 +212,8 @@ StateJson(s) ==
    edge |-> {[w |-> k[1], e |-> k[2], from |-> s.edge[k].from, to |-> s.edge[k].to, ty |-> s.edge[k].ty,
               att |-> AttJson(Get(s.eatt, k))] : k \in DOMAIN s.edge}]
 \* the content the state root commits to
-CanonJson(s) ==
-  LET c == Canon(s, Root)
-  IN [root |-> [w |-> c.root[1], n |-> c.root[2]],
+CanonJsonOf(c) ==
+     [root |-> [w |-> c.root[1], n |-> c.root[2]],
       inst |-> {[w |-> w, root |-> c.insts[w].root, parent |-> ParentJson(c.insts[w].parent)] : w \in DOMAIN c.insts},
       node |-> {[w |-> k[1], n |-> k[2], ty |-> c.nodes[k][1], att |-> AttJson(c.nodes[k][2])] : k \in DOMAIN c.nodes},
       edge |-> {[w |-> k[1], e |-> k[2], from |-> c.edges[k][1].from, to |-> c.edges[k][1].to, ty |-> c.edges[k][1].ty,
@@ -211,20 +236,21 @@ TickJson(k) ==
   LET t == eng.ledger[k]  j == JumpTo(eng, k)
   IN [tx |-> t.tx, cands |-> CandSeqJson(t.cands),
       order |-> [x \in 1..Len(t.order) |-> CandJson(t.order[x])], acc |-> t.acc,
-      post |-> StateJson(t.post), canon |-> CanonJson(t.post),
+      post |-> StateJson(t.post), canon |-> CanonJsonOf(t.canon),
       patch |-> [x \in 1..Len(t.patch) |-> OpJson(t.patch[x])],
       ins |-> {SlotJson(s) : s \in t.inSlots}, outs |-> {SlotJson(s) : s \in t.outSlots},
       linear |-> (t.pre = StateAfter(eng, k - 1)),
       jumpOk |-> j.ok, jumpSame |-> (j.ok /\ j.s = t.post)]
 SliceJson(slot) ==
-  LET r == SliceReplay(eng, slot)
-  IN [slot |-> SlotJson(slot), ticks |-> SliceFor(eng.ledger, slot), ok |-> r.ok,
+  LET sl == SliceFor(eng.ledger, slot)
+      r  == Replay(eng.u0, PatchesOf(eng.ledger, SetToSortSeq(sl, LAMBDA a, b : a < b)))     \* = SliceReplay(eng, slot)
+  IN [slot |-> SlotJson(slot), ticks |-> sl, ok |-> r.ok,
       same |-> (r.ok /\ SlotValue(r.s, slot) = SlotValue(FinalState(eng), slot))]
 \* slots of instances that exist somewhere in the history (others are trivially unproduced and absent)
 LiveWarps == DOMAIN eng.u0.inst \cup UNION {DOMAIN eng.ledger[k].post.inst : k \in 1..NTicks}
 SlotWarp(s) == IF s[1] = "att" THEN s[3] ELSE s[2]
 CaseJson ==
-  [preName |-> preName, pre |-> StateJson(eng.u0), canon0 |-> CanonJson(eng.u0),
+  [preName |-> preName, pre |-> StateJson(eng.u0), canon0 |-> CanonJsonOf(Canon(eng.u0, Root)),
    prog |-> [k \in 1..Len(Prog) |-> Prog[k]],
    descent |-> [w \in DOMAIN eng.u0.inst |-> {KeyJson(k) : k \in DescentOf(eng.u0, w)}],
    steps |-> [i \in 1..Len(script) |-> [kind |-> script[i].kind, cands |-> CandSeqJson(script[i].cands), k |-> script[i].k]],
